@@ -470,6 +470,14 @@ impl M {
 // ---------------------------------------------------------------------------
 // model -> real
 
+/// a copy with spare allocation (capacity > length), as a vector grown by `push` has: the subject must
+/// never look at a Vec's capacity
+pub fn spare<T: Clone>(v: &[T]) -> Vec<T> {
+    let mut w = Vec::with_capacity(v.len() + 5);
+    w.extend_from_slice(v);
+    w
+}
+
 pub fn item_of(t: &Tree) -> Item {
     match t {
         Tree::B(b) => Item::bool(*b),
@@ -477,15 +485,15 @@ pub fn item_of(t: &Tree) -> Item {
         Tree::F(f) => Item::float(*f),
         Tree::Name(n) => Item::name(n.clone()),
         Tree::Ins(n) => Item::instruction(n.clone()),
-        Tree::BV(v) => Item::boolvec(BoolVector::new(v.clone())),
-        Tree::IV(v) => Item::intvec(IntVector::new(v.clone())),
-        Tree::FV(v) => Item::floatvec(FloatVector::new(v.clone())),
+        Tree::BV(v) => Item::boolvec(BoolVector::new(spare(v))),
+        Tree::IV(v) => Item::intvec(IntVector::new(spare(v))),
+        Tree::FV(v) => Item::floatvec(FloatVector::new(spare(v))),
         Tree::Idx(c, d) => Item::index(Index { current: *c, destination: *d }),
         Tree::Graph(g) => Item::Literal { push_type: PushType::Graph { val: graph_of(g) } },
         Tree::L(items) => {
             // Item::list: last element of the vec is the top = first printed
             let v: Vec<Item> = items.iter().rev().map(item_of).collect();
-            Item::list(v)
+            Item::list(spare(&v))
         }
     }
 }
@@ -512,7 +520,7 @@ where
     U: Clone + std::fmt::Display + PartialEq + pushr::push::stack::PushPrint,
 {
     // index 0 = top -> last element of the backing vec
-    PushStack::from_vec(v.iter().rev().map(f).collect())
+    PushStack::from_vec(spare(&v.iter().rev().map(f).collect::<Vec<U>>()))
 }
 
 pub fn build(m: &M) -> PushState {
@@ -523,15 +531,15 @@ pub fn build(m: &M) -> PushState {
     s.name_stack = stack_of(&m.n, |v| v.clone());
     s.code_stack = stack_of(&m.c, item_of);
     s.exec_stack = stack_of(&m.e, item_of);
-    s.bool_vector_stack = stack_of(&m.bv, |v| BoolVector::new(v.clone()));
-    s.int_vector_stack = stack_of(&m.iv, |v| IntVector::new(v.clone()));
-    s.float_vector_stack = stack_of(&m.fv, |v| FloatVector::new(v.clone()));
+    s.bool_vector_stack = stack_of(&m.bv, |v| BoolVector::new(spare(v)));
+    s.int_vector_stack = stack_of(&m.iv, |v| IntVector::new(spare(v)));
+    s.float_vector_stack = stack_of(&m.fv, |v| FloatVector::new(spare(v)));
     s.index_stack = stack_of(&m.x, |v| Index { current: v.0, destination: v.1 });
     for msg in &m.input {
-        s.input_stack.push(PushMessage::new(IntVector::new(msg.header.clone()), BoolVector::new(msg.body.clone())));
+        s.input_stack.push(PushMessage::new(IntVector::new(spare(&msg.header)), BoolVector::new(spare(&msg.body))));
     }
     for msg in &m.output {
-        s.output_stack.push(PushMessage::new(IntVector::new(msg.header.clone()), BoolVector::new(msg.body.clone())));
+        s.output_stack.push(PushMessage::new(IntVector::new(spare(&msg.header)), BoolVector::new(spare(&msg.body))));
     }
     for g in m.graphs.iter().rev() {
         s.graph_stack.push(graph_of(g));
